@@ -247,3 +247,72 @@ Definition enc_result {R} (enc : R -> list Z) (r : result R) : list Z :=
 Definition enc_xq (x : xq) : list Z := match x with NegInf => [1%Z] | Fin q => 0%Z :: enc_Q q end.
 Definition enc_bool (b : bool) : list Z := [if b then 1%Z else 0%Z].
 Definition enc_Z (z : Z) : list Z := [z].
+
+(* ------------------------------------------------------------------------- a caller's graph, and a graph being built *)
+(* the caller's nx.DiGraph as list(G.nodes()) and list(G.edges()); degrees are counted on the edge list
+   (a self-loop counts once as in-edge and once as out-edge, as networkx does) *)
+Record bgraph := mk_bgraph { b_nodes : list node; b_edges : list edge }.
+Definition py_b_in_degree (G : bgraph) (u : node) : Z := py_len (filter (fun e => N.eqb (snd e) u) (b_edges G)).
+Definition py_b_out_degree (G : bgraph) (u : node) : Z := py_len (filter (fun e => N.eqb (fst e) u) (b_edges G)).
+
+(* a fresh nx.DiGraph that the function fills: nodes and edges in insertion order, each kept once
+   (adding an existing node / edge changes nothing; add_edge adds its endpoints first) *)
+Record mgraph := mk_mgraph { m_nodes : list node; m_edges : list edge }.
+Definition py_m_empty : mgraph := mk_mgraph [] [].
+Definition py_m_add_node (g : mgraph) (u : node) : mgraph :=
+  if py_mem N.eqb u (m_nodes g) then g else mk_mgraph (m_nodes g ++ [u]) (m_edges g).
+Definition py_m_add_edge (g : mgraph) (u v : node) : mgraph :=
+  let g' := py_m_add_node (py_m_add_node g u) v in
+  if py_mem edge_eqb (u, v) (m_edges g') then g' else mk_mgraph (m_nodes g') (m_edges g' ++ [(u, v)]).
+Definition py_m_add_nodes_from (g : mgraph) (l : list node) : mgraph := fold_left py_m_add_node l g.
+Definition py_m_add_edges_from (g : mgraph) (l : list edge) : mgraph := fold_left (fun g e => py_m_add_edge g (fst e) (snd e)) l g.
+Definition py_m_has_node (g : mgraph) (u : node) : bool := py_mem N.eqb u (m_nodes g).
+(* G.out_edges(n) / G.in_edges(n): adjacency of n in insertion order *)
+Definition py_m_out_edges (g : mgraph) (u : node) : list edge := filter (fun e => N.eqb (fst e) u) (m_edges g).
+Definition py_m_in_edges (g : mgraph) (u : node) : list edge := filter (fun e => N.eqb (snd e) u) (m_edges g).
+
+Lemma py_m_add_node_edges : forall g u, m_edges (py_m_add_node g u) = m_edges g.
+Proof. intros g u; unfold py_m_add_node; destruct (py_mem N.eqb u (m_nodes g)); reflexivity. Qed.
+Lemma py_m_add_node_nodes_incl : forall g u x, In x (m_nodes g) -> In x (m_nodes (py_m_add_node g u)).
+Proof. intros g u x H; unfold py_m_add_node; destruct (py_mem N.eqb u (m_nodes g)); [exact H | cbn [m_nodes]; apply in_or_app; left; exact H]. Qed.
+Lemma py_m_add_node_has : forall g u, In u (m_nodes (py_m_add_node g u)).
+Proof.
+  intros g u; unfold py_m_add_node; destruct (py_mem N.eqb u (m_nodes g)) eqn:E;
+    [apply py_mem_node_In; exact E | cbn [m_nodes]; apply in_or_app; right; left; reflexivity].
+Qed.
+(* adding an edge that is not there appends it; the endpoints become nodes *)
+Lemma py_m_add_edge_fresh : forall g u v, ~ In (u, v) (m_edges g) -> m_edges (py_m_add_edge g u v) = m_edges g ++ [(u, v)].
+Proof.
+  intros g u v H; unfold py_m_add_edge; cbv zeta. rewrite !py_m_add_node_edges.
+  destruct (py_mem edge_eqb (u, v) (m_edges g)) eqn:E; [apply py_mem_edge_In in E; contradiction | cbn [m_edges]; rewrite ?py_m_add_node_edges; reflexivity].
+Qed.
+Lemma py_m_add_edge_nodes : forall g u v, In u (m_nodes (py_m_add_edge g u v)) /\ In v (m_nodes (py_m_add_edge g u v)) /\
+  forall x, In x (m_nodes g) -> In x (m_nodes (py_m_add_edge g u v)).
+Proof.
+  intros g u v; unfold py_m_add_edge; cbv zeta.
+  assert (A : In u (m_nodes (py_m_add_node (py_m_add_node g u) v))) by (apply py_m_add_node_nodes_incl, py_m_add_node_has).
+  assert (B : In v (m_nodes (py_m_add_node (py_m_add_node g u) v))) by apply py_m_add_node_has.
+  assert (C : forall x, In x (m_nodes g) -> In x (m_nodes (py_m_add_node (py_m_add_node g u) v))) by (intros x Hx; apply py_m_add_node_nodes_incl, py_m_add_node_nodes_incl, Hx).
+  destruct (py_mem edge_eqb (u, v) (m_edges (py_m_add_node (py_m_add_node g u) v))); cbn [m_nodes]; auto.
+Qed.
+Lemma py_m_add_edges_from_fresh : forall l g, NoDup (m_edges g ++ l) -> m_edges (py_m_add_edges_from g l) = m_edges g ++ l.
+Proof.
+  induction l as [|[u v] l IH]; intros g H; cbn [py_m_add_edges_from fold_left fst snd]; [rewrite app_nil_r; reflexivity|].
+  fold (py_m_add_edges_from (py_m_add_edge g u v) l).
+  assert (Hf : ~ In (u, v) (m_edges g)).
+  { intro Hi. apply NoDup_remove_2 in H. apply H. apply in_or_app; left; exact Hi. }
+  rewrite IH; rewrite (py_m_add_edge_fresh g u v Hf); rewrite <- app_assoc; [reflexivity | exact H].
+Qed.
+Lemma py_m_add_edges_from_nodes : forall l g x, In x (m_nodes g) -> In x (m_nodes (py_m_add_edges_from g l)).
+Proof.
+  induction l as [|[u v] l IH]; intros g x H; cbn [py_m_add_edges_from fold_left fst snd]; [exact H|].
+  apply IH. apply (proj2 (proj2 (py_m_add_edge_nodes g u v))), H.
+Qed.
+Lemma py_m_add_nodes_from_edges : forall l g, m_edges (py_m_add_nodes_from g l) = m_edges g.
+Proof.
+  induction l as [|u l IH]; intros g; cbn [py_m_add_nodes_from fold_left]; [reflexivity|].
+  fold (py_m_add_nodes_from (py_m_add_node g u) l). rewrite IH. apply py_m_add_node_edges.
+Qed.
+
+Definition enc_nodes (l : list node) : list Z := map Z.of_N l.
+Definition enc_edges (l : list edge) : list Z := flat_map (fun e => [Z.of_N (fst e); Z.of_N (snd e)]) l.
